@@ -165,8 +165,18 @@ def acquire(gs, g, c):
 
 
 def q_arg(c):
+    """the query container handed to the implementation.  Unless the case says "list", a float64
+    C-contiguous ndarray that the harness keeps, compares bit for bit with a saved copy after every call
+    and hands in again (queries must be pure in their arguments and repeatable)"""
     q = c["queries"]
-    return list(q[0]) if c.get("single_flat") else np.array(q, dtype=float)
+    if c.get("container") == "list":
+        return list(q[0]) if c.get("single_flat") else [list(x) for x in q]
+    a = np.ascontiguousarray(np.array(q, dtype=np.float64))
+    return a[0].copy() if c.get("single_flat") else a
+
+
+def unchanged(arr, saved):
+    return (not isinstance(arr, np.ndarray)) or (arr.dtype == saved.dtype and arr.shape == saved.shape and arr.tobytes() == saved.tobytes())
 
 
 def check_knn(gd, c, res):
@@ -266,12 +276,12 @@ def check_radius(gd, c, res):
     return None
 
 
-def impl_knn(tree, c):
-    return tree.query(q_arg(c), k=c["k"], in_radians=c["in_radians"], return_distance=c["return_distance"])
+def impl_knn(tree, c, q=None):
+    return tree.query(q_arg(c) if q is None else q, k=c["k"], in_radians=c["in_radians"], return_distance=c["return_distance"])
 
 
-def impl_radius(tree, c):
-    return tree.query_radius(q_arg(c), r=c["r"], in_radians=c["in_radians"],
+def impl_radius(tree, c, q=None):
+    return tree.query_radius(q_arg(c) if q is None else q, r=c["r"], in_radians=c["in_radians"],
                              return_distance=c["return_distance"], count_only=bool(c.get("count_only")))
 
 
@@ -392,6 +402,7 @@ def gen_query_cases(ck, gs, gd, per_grid):
         base = {"grid": gs, "tree": tree, "kind": kind, "system": system, "mcode": mcode, "metric": metric,
                 "acquire": rng.choice(["fresh", "reconstruct", "switch"]), "switch_via": rng.randrange(2),
                 "in_radians": rad, "single_flat": mode == "single_flat", "positions": pos,
+                "container": "list" if rng.random() < 0.25 else "ndarray",
                 "queries": [user_query(system, mcode, p, rad) for p in pos]}
         c = dict(base)
         c["type"] = "knn"
@@ -687,15 +698,47 @@ def info_query(c):
 
 def run_query_case(ck, c, g, gd, rng=None):
     """runs one knn/radius case on the implementation; reports property failures; returns impl record"""
+    arr = q_arg(c)
+    saved = arr.copy() if isinstance(arr, np.ndarray) else None
     try:
         t = acquire(c["grid"], g, c)
-        res = impl_knn(t, c) if c["type"] == "knn" else impl_radius(t, c)
+        res = impl_knn(t, c, arr) if c["type"] == "knn" else impl_radius(t, c, arr)
     except Exception as ex:
         ck.fail("raises", slim(c), dict(info_query(c), exception=type(ex).__name__), detail=repr(ex))
         return {"error": repr(ex)[:200]}
     bad = check_knn(gd, c, res) if c["type"] == "knn" else check_radius(gd, c, res)
     if bad:
         ck.fail(bad[0], slim(c), info_query(c), detail=bad[1])
+    if saved is not None:
+        info2 = dict(info_query(c), call="same array handed in again", container="float64 ndarray kept by the caller")
+        if not unchanged(arr, saved):
+            ck.fail("query_argument_modified", slim(c), info2,
+                    detail="the caller's array changed during the call: %s -> %s" % (saved.reshape(-1)[:4].tolist(), arr.reshape(-1)[:4].tolist()))
+        # the same array again: same tree with another k / the same radius, and (Cartesian) the other tree type
+        try:
+            n = gd.n[c["kind"]]
+            c2 = dict(c)
+            if c["type"] == "knn":
+                c2["k"] = n if c["k"] != n else 1
+                c2["return_distance"] = True
+                res2 = impl_knn(t, c2, arr)
+                bad2 = check_knn(gd, c2, res2)
+            else:
+                res2 = impl_radius(t, c2, arr)
+                bad2 = check_radius(gd, c2, res2)
+            if bad2 and not bad:
+                ck.fail(bad2[0], slim(c), info2, detail="second call with the same array: " + bad2[1])
+            if c["system"] == "cartesian" and c["mcode"] == 1 and not bad:
+                other = "kd" if c["tree"] == "ball" else "ball"
+                t3 = get_tree(mk_grid(c["grid"]), other, c["kind"], "cartesian", "minkowski")
+                c3 = dict(c, tree=other, type="knn", k=min(2, n), return_distance=True)
+                bad3 = check_knn(gd, c3, impl_knn(t3, c3, arr))
+                if bad3:
+                    ck.fail(bad3[0], slim(c), dict(info2, call="same array handed to the other tree type"), detail=bad3[1])
+            if not unchanged(arr, saved):
+                ck.fail("query_argument_modified", slim(c), info2, detail="the caller's array changed during a repeated call")
+        except Exception as ex:
+            ck.fail("raises", slim(c), dict(info2, exception=type(ex).__name__), detail="repeated call: %r" % (ex,))
     return {"res": res, "bad": bad}
 
 
@@ -714,6 +757,7 @@ def creators(reqs):
 def run_history_case(ck, c, gd, model_trace=None, stats=None):
     g = mk_grid(c["grid"])
     cand_cache = {}
+    bufs = {}
     cr = creators(c["requests"])
     observed = []
     for i, r in enumerate(c["requests"]):
@@ -730,7 +774,7 @@ def run_history_case(ck, c, gd, model_trace=None, stats=None):
         if want in matches:
             # the handed-back tree must answer like brute force on the REQUESTED kind for every
             # admissible k (1, 2, n) and for a radius query
-            deep_check(ck, c, i, r, t, gd)
+            deep_check(ck, c, i, r, t, gd, bufs)
         if want not in matches:
             creator = c["requests"][cr[i]]
             stale = [r["kind"], creator["system"], creator["mcode"]]
@@ -751,11 +795,17 @@ def run_history_case(ck, c, gd, model_trace=None, stats=None):
     return observed
 
 
-def deep_check(ck, c, i, r, t, gd):
+def deep_check(ck, c, i, r, t, gd, bufs=None):
     nk = gd.n[r["kind"]]
     pos = (c["probe"][0], c["probe"][1])
     rad = r["system"] == "spherical" and (i % 2 == 1)
     q = user_query(r["system"], r["mcode"], pos, rad)
+    # one float64 array per query format, kept over the whole history and handed to every tree
+    bufs = {} if bufs is None else bufs
+    bkey = (r["system"], r["mcode"] == 0, rad)
+    if bkey not in bufs:
+        bufs[bkey] = (np.ascontiguousarray(np.array(q, dtype=np.float64)), np.array(q, dtype=np.float64))
+    qa, qsaved = bufs[bkey]
     base = {"tree": r["tree"], "kind": r["kind"], "system": r["system"], "mcode": r["mcode"], "metric": r["metric"],
             "in_radians": rad, "queries": [q], "positions": [list(pos)], "single_flat": True, "acquire": "history"}
     hist = [[x["tree"], x["kind"], x["system"], x["mcode"], x["reconstruct"]] for x in c["requests"][:i + 1]]
@@ -764,11 +814,15 @@ def deep_check(ck, c, i, r, t, gd):
         info = dict(info_query(qc), site="get_%s_tree/history/query" % r["tree"], k_class="k=n" if k == nk else "k<n",
                     history_length=i + 1)
         try:
-            res = t.query(list(q), k=k, in_radians=rad, return_distance=True)
+            res = t.query(qa, k=k, in_radians=rad, return_distance=True)
         except Exception as ex:
             ck.fail("raises", dict(slim(c), failing_request=i, k=k), dict(info, exception=type(ex).__name__),
                     detail="after requests %s: query(k=%d of n=%d) raised %r" % (hist, k, nk, ex))
             continue
+        if not unchanged(qa, qsaved):
+            ck.fail("query_argument_modified", dict(slim(c), failing_request=i, k=k), info,
+                    detail="the caller's float64 array %s became %s" % (qsaved.tolist(), qa.tolist()))
+            qa[...] = qsaved
         bad = check_knn(gd, qc, res)
         if bad:
             ck.fail(bad[0], dict(slim(c), failing_request=i, k=k), info, detail="after requests %s: %s" % (hist, bad[1]))
@@ -782,7 +836,11 @@ def deep_check(ck, c, i, r, t, gd):
         qc = dict(base, type="radius", r=rr, return_distance=True, count_only=False)
         info = dict(info_query(qc), site="get_%s_tree/history/query_radius" % r["tree"], history_length=i + 1)
         try:
-            res = t.query_radius(list(q), r=rr, in_radians=rad, return_distance=True)
+            res = t.query_radius(qa, r=rr, in_radians=rad, return_distance=True)
+            if not unchanged(qa, qsaved):
+                ck.fail("query_argument_modified", dict(slim(c), failing_request=i), info,
+                        detail="query_radius: the caller's float64 array %s became %s" % (qsaved.tolist(), qa.tolist()))
+                qa[...] = qsaved
             bad = check_radius(gd, qc, res)
             if bad:
                 ck.fail(bad[0], dict(slim(c), failing_request=i), info, detail="after requests %s: %s" % (hist, bad[1]))
@@ -805,6 +863,124 @@ def return_trips(gs, probe):
     return out
 
 
+# ------------------------------------------------------------------------------------------------
+# a second grid object derived from the first (copy / isel / dual) while trees already exist on the first
+
+def apply_coord_mutation(g, m):
+    import xarray as xr
+    if m["op"] in ("welzl", "cartesian average"):
+        g.construct_face_centers(method=m["op"])
+        return
+    p = KIND_PREFIX[m["kind"]]
+    for cname in (("lon", "lat") if m["op"] == "shift_lonlat" else ("x", "y", "z")):
+        old = getattr(g, "%s_%s" % (p, cname))
+        setattr(g, "%s_%s" % (p, cname), xr.DataArray(np.roll(np.asarray(old.values, dtype=float), int(m["by"])),
+                                                      dims=old.dims, attrs=dict(old.attrs)))
+
+
+def derive_grid(g, c):
+    if c["derive"] == "copy":
+        return g.copy()
+    if c["derive"] == "isel":
+        return g.isel(n_face=list(c["isel_faces"]))
+    return g.get_dual()
+
+
+def gen_derived_case(rng, gs, n_face):
+    def req(tree, kinds=KINDS):
+        _, system, mcode = rng.choice([x for x in COMBOS if x[0] == tree])
+        return {"tree": tree, "kind": rng.choice(kinds), "system": system, "mcode": mcode,
+                "metric": METRIC_NAMES[mcode][0], "reconstruct": False}
+    tree = rng.choice(TREES)
+    before = [req(tree) for _ in range(rng.randrange(1, 3))]
+    if rng.random() < 0.4:
+        before.append(req("kd" if tree == "ball" else "ball"))
+    derive = rng.choice(["copy", "copy", "isel", "dual"]) if n_face >= 2 else "copy"
+    c = {"type": "derived", "grid": gs, "derive": derive, "before": before}
+    if derive == "isel":
+        c["isel_faces"] = sorted(rng.sample(range(n_face), rng.randrange(1, n_face)))
+    last = [r for r in before if r["tree"] == tree][-1]
+    # on the derived grid: same (system, metric) as the tree the original holds, another kind; then anything
+    on = [dict(last, kind=rng.choice([k for k in KINDS if k != last["kind"]]))]
+    if rng.random() < 0.6:
+        on.append(req(rng.choice(TREES)))
+    c["on_derived"] = on
+    mut = []
+    if rng.random() < 0.6:
+        kd = on[0]["kind"]
+        if kd == "face centers" and rng.random() < 0.5:
+            mut.append({"op": "welzl"})
+        else:
+            mut.append({"op": "shift_lonlat" if on[0]["system"] == "spherical" else "shift_xyz", "kind": kd, "by": 1})
+    c["mut"] = mut
+    c["after_on_original"] = [dict(last, kind=rng.choice(KINDS))] if rng.random() < 0.5 else []
+    z = rng.uniform(-0.9, 0.9)
+    c["probe"] = [rng.uniform(-179, 179), math.degrees(math.asin(z))]
+    return c
+
+
+def run_derived_case(ck, c, stats=None):
+    g = mk_grid(c["grid"])
+    gd = GridData(g)
+    caches = {"g": {}, "d": {}}
+    bufs = {}
+    handles = {"g": {}, "d": {}}
+
+    def request(which, grid, gdat, r, i, clause):
+        want = [r["kind"], r["system"], r["mcode"]]
+        info = {"site": "get_%s_tree" % r["tree"], "grid": "original" if which == "g" else "derived:" + c["derive"],
+                "derived_coordinates_changed": bool(c["mut"]), "reconstruct": False}
+        try:
+            t = get_tree(grid, r["tree"], r["kind"], r["system"], r["metric"], False)
+            matches, note = observe_tree(gdat, t, r["tree"], c["probe"], caches[which])
+        except Exception as ex:
+            ck.fail("raises", slim(c), dict(info, exception=type(ex).__name__), detail=repr(ex))
+            return
+        handles[which][r["tree"]] = (t, r)
+        if want not in matches:
+            ck.fail(clause, slim(c), info, detail="request %s on the %s grid: tree handed back behaves as %s (against that grid's own current coordinates)"
+                    % (want, info["grid"], matches or note))
+        else:
+            hc = {"probe": c["probe"], "requests": [r], "grid": c["grid"], "derived_case": {k: c[k] for k in ("derive", "before", "on_derived", "mut")}}
+            deep_check(ck, hc, 0, r, t, gdat, bufs)
+
+    def recheck(which, gdat, clause, why):
+        for tree, (t, r) in handles[which].items():
+            want = [r["kind"], r["system"], r["mcode"]]
+            try:
+                matches, note = observe_tree(gdat, t, tree, c["probe"], caches[which])
+            except Exception as ex:
+                matches, note = [], repr(ex)
+            if want not in matches:
+                ck.fail(clause, slim(c), {"site": "get_%s_tree" % tree, "derive": c["derive"]},
+                        detail="%s: the handle obtained for %s now behaves as %s" % (why, want, matches or note))
+
+    for i, r in enumerate(c["before"]):
+        request("g", g, gd, r, i, "cache_reflects_request")
+    try:
+        g2 = derive_grid(g, c)
+        GridData(g2)                          # derived coordinates exist before the mutators replace stored values
+    except Exception:
+        # building the derived grid itself is C09/C18's business (e.g. the dual of a partial grid without a
+        # single dual face); nothing to ask about trees then
+        if stats is not None:
+            stats["derive_failed"] = stats.get("derive_failed", 0) + 1
+        return
+    for m in c["mut"]:
+        apply_coord_mutation(g2, m)
+    gd2 = GridData(g2)                        # the derived grid's CURRENT coordinates
+    if any(not math.isfinite(v) for kind in KINDS for a in gd2.f[kind] for v in a):
+        return
+    for i, r in enumerate(c["on_derived"]):
+        request("d", g2, gd2, r, i, "derived_grid_tree_reflects_request")
+        recheck("g", gd, "request_on_derived_grid_changes_original_handle", "after request %s on the derived grid" % [r["tree"], r["kind"]])
+    for i, r in enumerate(c["after_on_original"]):
+        held = dict(handles["g"])
+        request("g", g, gd, r, i, "cache_reflects_request")
+        recheck("d", gd2, "request_on_original_grid_changes_derived_handle", "after request %s on the original grid" % [r["tree"], r["kind"]])
+        handles["g"] = dict(held, **{r["tree"]: handles["g"][r["tree"]]}) if r["tree"] in handles["g"] else held
+
+
 def history_line(c):
     return sx([[TREES.index(r["tree"]), KINDS.index(r["kind"]), SYSTEMS.index(r["system"]), r["mcode"], bool(r["reconstruct"])]
                for r in c["requests"]])
@@ -825,11 +1001,13 @@ def main(ck):
         "sides, longitudes beyond +-180; k in {1, 2, n, random}; radii 0, between consecutive true distances, up to beyond the "
         "diameter (margin 1e-6).  Histories: 1..3 requests over tree x kind x system x metric x reconstruct and (thorough: all, "
         "quick: a sample of) ordered pairs of requests on one tree type; each tree handed back is identified behaviourally and then queried with k = 1, 2, n of the requested kind and a radius, against brute force on the requested kind.  "
+        "Every query container is (75%) a float64 C-contiguous ndarray kept by the harness: compared bit for bit with a saved copy after the call and handed in again (same tree other k / same radius; other tree type for Cartesian), one array per query format is reused over a whole history.  Derived grids: trees requested on g, then g.copy() / g.isel(n_face=...) / g.get_dual(), optional change of the derived grid's coordinates (construct_face_centers('welzl'), coordinate setters), requests on the derived grid checked against ITS current coordinates, handles of each grid re-identified after requests on the other.  "
         "non-trivial = tree with >= 2 elements; distinct = distinct (grid, request, queries)")
     mr = ModelRunner(ck)
     per_grid = 10 if quick else 21
     hist = {"knn": 0, "radius": 0, "history": 0}
     combos_seen, acq_seen, k_classes, pos_classes = {}, {}, {}, {}
+    derived_kinds = {}
     stats = {}
     model_skipped = 0
     cfg = ck.run_model("cfg", ["()"])[0] if ok else None
@@ -902,6 +1080,17 @@ def main(ck):
             hs += return_trips(gs, probe)
         for _ in range(8 if quick else 20):
             hs.append(gen_history(rng, gs, 4))
+        for _ in range(4 if quick else 8):
+            dc = gen_derived_case(rng, gs, gd.n["face centers"])
+            ck.note_case((gs["name"], gi, "derived", dc["derive"], json.dumps(dc["before"]), json.dumps(dc["on_derived"]), json.dumps(dc["mut"])), True)
+            hist["derived"] = hist.get("derived", 0) + 1
+            derived_kinds[dc["derive"]] = derived_kinds.get(dc["derive"], 0) + 1
+            try:
+                run_derived_case(ck, dc, stats)
+            except Exception as ex:
+                ck.fail("raises", slim(dc), {"site": "derived-grid history", "derive": dc["derive"], "exception": type(ex).__name__}, detail=repr(ex))
+            if gi == 6 and len(ck.cov["samples"]) < 4:
+                ck.sample({"derived_grid_history": {k: dc[k] for k in ("before", "derive", "mut", "on_derived", "after_on_original")}})
         traces = ck.run_model("trace", [history_line(h) for h in hs]) if ok else [None] * len(hs)
         for h, tr in zip(hs, traces):
             ck.note_case((gs["name"], gi, "history", [(r["tree"], r["kind"], r["system"], r["mcode"], r["reconstruct"]) for r in h["requests"]]), True)
@@ -916,7 +1105,7 @@ def main(ck):
     if ok:
         audit_n = audit(ck, rng)
     ck.extra.update({
-        "case_kinds": hist, "grids": len(specs), "corpus_cases": n_corpus, "combinations": combos_seen, "tree_acquisition": acq_seen,
+        "case_kinds": hist, "derived_grid_kinds": derived_kinds, "derived_grid_not_constructible": stats.get("derive_failed", 0), "grids": len(specs), "corpus_cases": n_corpus, "combinations": combos_seen, "tree_acquisition": acq_seen,
         "k_classes": k_classes, "query_position_classes": pos_classes, "model_cases_skipped_scale": model_skipped,
         "cache_keys_regenerated_from_source": {"ball": cfg[0], "kd": cfg[1], "format": "[rebuild_on_kind, rebuild_on_system, rebuild_on_metric, switch_kind, complete]"} if cfg else None,
         "stale_tree_answers": stats.get("stale", 0),
@@ -924,7 +1113,9 @@ def main(ck):
         "tolerances": {"distance": "abs 1e-9*max(1,d) in tree units (rad / coordinate unit); haversine within 1e-3 rad of the antipode: 1e-7",
                        "radius_margin": "generated radii keep 1e-6 relative distance from every true distance; r=0 used as is"},
         "clauses_checked_on_impl": ["knn_shape", "knn_indices", "knn_nearest", "knn_order", "knn_distance_unit", "radius_shape",
-                                    "radius_indices", "radius_set", "radius_count", "radius_distance_unit",
+                                    "radius_indices", "radius_set", "radius_count", "radius_distance_unit", "query_argument_modified",
+                                    "derived_grid_tree_reflects_request", "request_on_derived_grid_changes_original_handle",
+                                    "request_on_original_grid_changes_derived_handle",
                                     "cache_reflects_request", "raises"],
         "partial": "sklearn's trees are assumed to equal brute force (validated here on every query; great-circle radii are clamped at pi by the wrapper because sklearn's reduced haversine distance is not monotone beyond it); float rounding is bounded "
                    "empirically by the stated tolerances; the haversine ordering enters the model through unit vectors computed "
@@ -968,7 +1159,13 @@ def replay(ck, rp):
     g = mk_grid(c["grid"])
     gd = GridData(g)
     ck.note_case("replay")
-    if c.get("type") == "history":
-        run_history_case(ck, c, gd)
+    if c.get("type") == "derived":
+        run_derived_case(ck, c)
+    elif c.get("type") == "history" or c.get("derived_case"):
+        if c.get("derived_case"):
+            dc = dict(c["derived_case"], type="derived", grid=c["grid"], probe=c["probe"], after_on_original=[])
+            run_derived_case(ck, dc)
+        else:
+            run_history_case(ck, c, gd)
     else:
         run_query_case(ck, c, g, gd)
